@@ -76,7 +76,7 @@ CHECKS = {
             "is a permutation; real shuffles and forced decks, both decks, 2 and 4 hole cards."),
     "C17": ("spec/SeatProps.tla C17_button/C17_insufficient on every Next of the real SeatManager's state graph and histories",
             "Button moves to the first playable seat clockwise from the dealer the last move left behind (a history variable: seat operations other than Next do not move the button), never stalls or skips; fewer than two able to play => the insufficient-players "
-            "error, never a panic; same exploration as C08."),
+            "error, never a panic; same exploration as C08; SeatNextProof proves the button rule on the model of nextDealer with TLAPS for any number of seats."),
     "C18": ("spec/SeatProps.tla C18_* incl. concurrent Join episodes under a decided schedule (gate hook) + SeatJoinConc.tla",
             "Join/Leave/any-seat semantics, seated = joins - leaves, no panic on any call incl. out-of-range seats; concurrent joins: one "
             "goroutine is held between check and commit by the verif gate hook while the others must block on the mutex; the episode "
